@@ -2155,6 +2155,9 @@ type TableValuedFunction struct {
 // Format formats the node.
 func (node *TableValuedFunction) Format(buf *TrackedBuffer) {
 	buf.Myprintf("%v(%v)", node.Name, node.Args)
+	if !node.As.IsEmpty() {
+		buf.Myprintf(" as %v", node.As)
+	}
 }
 
 func (node *TableValuedFunction) walkSubtree(visit Visit) error {
